@@ -245,6 +245,50 @@ theorem C06_loop (F : TFlags) (P : Params) (specs : List TSpec) (st : Int) (D : 
     (n : Nat) (now : Int) (hlo : lo ≤ now) : Succs D (timeLoop F P specs st lat n now) :=
   (timeLoop_succs F P specs st D lat lo hnext hlat1 hlat2 n now hlo).1
 
+/-- **startup / shutdown entries.**  For every argument list (any number and order of `"startup"`, `"shutdown"` and time
+specifications) both subsystems run the function at definition iff there is a `"startup"` entry or the decorator has no
+arguments at all, at removal iff there is a `"shutdown"` entry – a decorator naming only `"shutdown"` does NOT run at
+definition – and hand exactly the time specifications, in order, to the wait loop.  (The one place where the subsystems
+differ is `@time_trigger()` with empty parentheses: no startup run in legacy.) -/
+theorem C06_startup_shutdown (args : Option (List TArg)) (h : args ≠ some []) :
+    (Legacy.normalize args).runOnStartup = wantsStartup args ∧ (New.normalize args).runOnStartup = wantsStartup args ∧
+    (Legacy.normalize args).runOnShutdown = wantsShutdown args ∧ (New.normalize args).runOnShutdown = wantsShutdown args ∧
+    (Legacy.normalize args).specs = specsOf (args.getD []) ∧ (New.normalize args).specs = specsOf (args.getD []) := by
+  cases args with
+  | none => simp [Legacy.normalize, New.normalize, wantsStartup, wantsShutdown, specsOf]
+  | some l =>
+    cases l with
+    | nil => exact absurd rfl h
+    | cons a rest =>
+      have e1 := strip_fst .startup (a :: rest)
+      have e2 := strip_fst .shutdown (strip .startup (a :: rest)).2
+      have e3 := strip_contains_other .startup .shutdown (by decide) (a :: rest)
+      have e4 := specsOf_strip .shutdown (by intro s; simp) (strip .startup (a :: rest)).2
+      have e5 := specsOf_strip .startup (by intro s; simp) (a :: rest)
+      simp only [Legacy.normalize, New.normalize, wantsStartup, wantsShutdown, Option.getD_some, e1, e2, e3, e4, e5, and_self]
+
+/-- the runs of a function over its life: the startup entry first (once, iff wanted), then the loop's instants, the shutdown
+entry last (once, iff wanted) -/
+theorem C06_startup_shutdown_runs (F : TFlags) (P : Params) (cfg : TrigCfg) (st : Int) (lat : Nat → Int) (n : Nat) :
+    (funcRuns F P cfg st lat n).count Run.startup = (if cfg.runOnStartup then 1 else 0) ∧
+    (funcRuns F P cfg st lat n).count Run.shutdown = (if cfg.runOnShutdown then 1 else 0) ∧
+    (cfg.runOnStartup = true → ∃ l, funcRuns F P cfg st lat n = Run.startup :: l) ∧
+    (cfg.runOnShutdown = true → ∃ l, funcRuns F P cfg st lat n = l ++ [Run.shutdown]) := by
+  have hat : ∀ (l : List Int) (r : Run), (∀ t, r ≠ Run.at t) → (l.map Run.at).count r = 0 := by
+    intro l r hr
+    apply List.count_eq_zero.mpr
+    intro hmem
+    obtain ⟨t, _, ht⟩ := List.mem_map.mp hmem
+    exact hr t ht.symm
+  have h1 := hat (timeLoop F P cfg.specs st lat n st) Run.startup (by intro t; simp)
+  have h2 := hat (timeLoop F P cfg.specs st lat n st) Run.shutdown (by intro t; simp)
+  simp only [funcRuns]
+  refine ⟨?_, ?_, ?_, ?_⟩
+  · cases cfg.runOnStartup <;> cases cfg.runOnShutdown <;> simp [List.count_append, h1]
+  · cases cfg.runOnStartup <;> cases cfg.runOnShutdown <;> simp [List.count_append, h2]
+  · intro h; simp only [h, if_true]; exact ⟨_, rfl⟩
+  · intro h; simp only [h, if_true]; exact ⟨_, rfl⟩
+
 /-- **cron and daylight saving.**  The cron answer is a local time strictly after now whose distance to now in UTC is
 positive, and `next_time_adj - now` is exactly that real distance (so the wait is right across a DST change). -/
 theorem C06_cron_dst (F : TFlags) (P : Params) (hC : CronForward P) (id : Nat) (now st : Int) (r : NT)
